@@ -103,7 +103,8 @@ def r2(c):
     c.floor("C10.R2", "apply_acl(new|safe_new, <generator acl>) calls", len(calls), 2)
     for x in calls:
         e = kwarg(x, "exclusive", 3)
-        ok = e is not None and norm(e).replace(" ", "") == "notctx.args.no_acl_exclusive"
+        ev = Provenance(fn).resolve_alias(e) if e is not None else None
+        ok = e is not None and norm(ev).replace(" ", "") == "notctx.args.no_acl_exclusive"
         c.check("C10.R2", ok, repo.loc(g, x), f"_old_new_per_device/apply_acl({norm(x.args[0])})/exclusive", f"exclusive={norm(e) if e is not None else 'default False'}: "
                 "two generators owning one deletable line would not be reported", key_text="exclusive-flag")
     on = repo.func("annet.gen", "old_new")
